@@ -190,6 +190,15 @@ EXT7={
  "C14":" A parameter lexeme that begins with a quote is exactly one quoted value.",
  "C20":" Fresh methods on case-twin paths derived from the document's own parameterised paths.",
 }
+EXT8={
+ "C03":" Map ranges over interface-keyed maps explored as well; the same late path fault in 2..3 interactions; CRLF / CR documents with long descriptions compiled twice from one file object.",
+ "C08":" Chains of nested includes whose file names differ in letter case, by a prefix, or by a sub-directory only.",
+ "C11":" A type / an enum that only a never-pasted macro declares is undeclared.",
+ "C12":" An array of arrays.",
+ "C13":" A parameter declared twice by two pastes of one macro.",
+ "C15":" The parentheses' own lines indented with tabs where the text is.",
+ "C20":" A fresh URL that pastes a macro the document already pastes.",
+}
 for k,v in EXT.items():
     CHECKS[k]["text"]+=v
 for k,v in EXT2.items():
@@ -203,6 +212,8 @@ for k,v in EXT5.items():
 for k,v in EXT6.items():
     CHECKS[k]["text"]+=v
 for k,v in EXT7.items():
+    CHECKS[k]["text"]+=v
+for k,v in EXT8.items():
     CHECKS[k]["text"]+=v
 ENGINES=[
  {"name":"E-REFCAT","path":"internal/checks/refcat.go","serves_properties":[],"kind_free_text":"reference compiler (real lexemes -> reference resolver of C06 -> PASTE substitution -> expected interactions, tags, path variables, names, faults) run over fixtures, pool selections and, through a tap, the documents of the generators of C04 / C13 / C19; serves C04 C06 C07 C11 C13 C19 next to their own engines"},
